@@ -35,6 +35,8 @@ pub struct Dlv17 {
     pub mtimes: BTreeMap<String, i64>,
     /// data arrives on stdin (first data file only)
     pub stdin: Option<String>,
+    /// transparent read faults (short reads, EINTR): must not change anything
+    pub faults: FaultSpec,
 }
 
 fn step(argv: &[String], stdin: &Option<String>, root: &str) -> Step {
@@ -178,10 +180,11 @@ impl C17 {
         (Scn17 { files, params, overlap, ndata }, prog.print())
     }
 
-    fn run(&self, w: &mut Work, argv: &[String], stdin: &Option<String>, dir_mode: &str, dir_seed: u64, rep: &mut Report) -> (String, Vec<u8>) {
+    fn run(&self, w: &mut Work, argv: &[String], stdin: &Option<String>, dir_mode: &str, dir_seed: u64, faults: &FaultSpec, rep: &mut Report) -> (String, Vec<u8>) {
         let mut req = w.req();
         req.sim.dir_mode = dir_mode.to_string();
         req.sim.dir_seed = dir_seed;
+        req.sim.faults = faults.clone();
         req.steps = vec![step(argv, stdin, &w.root)];
         let o = w.run(&req);
         rep.absorb_exec(&o);
@@ -247,13 +250,14 @@ impl C17 {
             }
             argv.extend(tail);
             let kind = if stdin_mode { format!("stdin-{}", kind) } else { kind };
-            out.push(Dlv17 { kind, argv, dir_mode, dir_seed: r.next(), mtimes, stdin: if stdin_mode { Some("@/data/d0.json".into()) } else { None } });
+            let faults = if r.chance(1, 2) { FaultSpec::Random { seed: r.next(), rates: RatesSpec { read_short: *r.pick(&[64u8, 160, 250]), read_eintr: *r.pick(&[0u8, 40]), write_short: 60, write_eintr: 10, max_short: 1 + r.below(40) as u32, ..Default::default() } } } else { FaultSpec::Off };
+            out.push(Dlv17 { kind, argv, dir_mode, dir_seed: r.next(), mtimes, stdin: if stdin_mode { Some("@/data/d0.json".into()) } else { None }, faults });
         }
         out
     }
 
     fn reference(&self, w: &mut Work, rep: &mut Report) -> (String, Option<Value>) {
-        let (c, out) = self.run(w, &sv(&["cfn-guard", "validate", "-r", "@/rules/r0.guard", "-d", "@/merged", "--structured", "-o", "json", "-S", "none"]), &None, "asc", 1, rep);
+        let (c, out) = self.run(w, &sv(&["cfn-guard", "validate", "-r", "@/rules/r0.guard", "-d", "@/merged", "--structured", "-o", "json", "-S", "none"]), &None, "asc", 1, &FaultSpec::Off, rep);
         let v = verdicts(&out, true);
         (c, v)
     }
@@ -266,7 +270,7 @@ impl C17 {
             }
         }
         w.materialise(&files);
-        let (c, out) = self.run(w, &d.argv, &d.stdin, &d.dir_mode, d.dir_seed, rep);
+        let (c, out) = self.run(w, &d.argv, &d.stdin, &d.dir_mode, d.dir_seed, &d.faults, rep);
         if c.starts_with("died") || c.starts_with("panic") {
             rep.count("skipped.crash_is_c08", 1);
             return None;
@@ -319,7 +323,7 @@ impl C17 {
 
     fn to_json(&self, scn: &Scn17, d: &Dlv17) -> Value {
         json!({"files": files_to_json(&scn.files), "params": scn.params, "overlap": scn.overlap, "ndata": scn.ndata,
-               "delivery": {"kind": d.kind, "argv": d.argv, "dir_mode": d.dir_mode, "dir_seed": d.dir_seed, "mtimes": d.mtimes, "stdin": d.stdin}})
+               "delivery": {"kind": d.kind, "argv": d.argv, "dir_mode": d.dir_mode, "dir_seed": d.dir_seed, "mtimes": d.mtimes, "stdin": d.stdin, "faults": serde_json::to_value(&d.faults).unwrap()}})
     }
 }
 
@@ -381,7 +385,7 @@ impl Check for C17 {
                 let mut execs = 0;
                 if w.seen.insert(sig.clone()) {
                     let mut mrep = Report::default();
-                    for cand in [Dlv17 { dir_mode: "asc".into(), ..md.clone() }, Dlv17 { mtimes: BTreeMap::new(), ..md.clone() }] {
+                    for cand in [Dlv17 { faults: FaultSpec::Off, ..md.clone() }, Dlv17 { dir_mode: "asc".into(), ..md.clone() }, Dlv17 { mtimes: BTreeMap::new(), ..md.clone() }] {
                         if self.check_one(w, &scn, &cand, &mut mrep).map(|(s, _)| s) == Some(sig.clone()) {
                             md = cand;
                         }
@@ -422,6 +426,7 @@ impl Check for C17 {
             dir_seed: dv.get("dir_seed").and_then(|s| s.as_u64()).unwrap_or(1),
             mtimes: serde_json::from_value(dv.get("mtimes").cloned().unwrap_or(Value::Null)).unwrap_or_default(),
             stdin: dv.get("stdin").and_then(|s| s.as_str()).map(String::from),
+            faults: serde_json::from_value(dv.get("faults").cloned().unwrap_or(Value::Null)).unwrap_or(FaultSpec::Off),
         };
         let mut rep = Report::default();
         self.check_one(w, &scn, &d, &mut rep).into_iter().map(|(sig, what)| Violation { signature: sig, what, replay: Value::Null, shrink_execs: 0, minimised: false }).collect()
